@@ -46,6 +46,15 @@ func genC12(t *rapid.T) C12Case {
 			v.DirName = fmt.Sprintf("v%d", i)
 			// several accepted changes per version: drop optional-able fields, retype numeric fields
 			model.ApplyBenignChanges(t, v, 2+i)
+			// protocols that exist only in the previous version ("Removed protocol" warnings, which
+			// all carry the same position)
+			if rapid.Bool().Draw(t, "removedProtocols") {
+				np := rapid.IntRange(2, 4).Draw(t, "nRemoved")
+				for j := 0; j < np; j++ {
+					v.Defs = append(v.Defs, &model.Def{Kind: model.DProtocol, Name: fmt.Sprintf("OldProto%c", 'A'+j),
+						Fields: []model.Field{{Name: "x", Type: model.Prim("int32")}, {Name: "s", Type: model.Stream(model.Prim("string"))}}})
+				}
+			}
 			root.Versions = append(root.Versions, model.Version{Label: fmt.Sprintf("v%d", i), Pkg: v})
 		}
 	case "invalid-multi":
